@@ -752,6 +752,9 @@ def run(rep, tier, seed):
                 rep.fail('logging-changes-outcome', 'decode gives %s with logging off, %s with logging on, %s off again'
                          % (str(outs[0])[:120], str(outs[1])[:120], str(outs[2])[:120]),
                          {'kind': 'logging', 'type': gen.ty_sexp(c.t), 'value': gen.val_sexp(c.v), 'mode': list(mode), 'bytes': e[1]})
+    # ---- values that cannot be printed (beyond the int-to-str limit, not decodable into text): logging on must not turn
+    # a codec call that succeeds into one that fails, for every codec (native included), encode and decode
+    check_unprintable_values_with_logging(rep)
     # ---- the same with debug logging switched on
     sink = []
     debug.setLogger(debug.Debug('all', printer=lambda m: sink.append(len(m))))
@@ -771,6 +774,57 @@ def run(rep, tier, seed):
     # informational only: a decode that raises leaves its entry on the global scope stack; that changes the text of
     # later log messages, not the outcome of any codec call (the property is about outcomes)
     rep.count('debug-scope-entries-left', depth)
+
+
+def check_unprintable_values_with_logging(rep):
+    from pyasn1.type import namedtype, char
+    from pyasn1.codec.native import encoder as nenc, decoder as ndec
+    big = 2 ** 20000
+    rec = univ.Sequence(componentType=namedtype.NamedTypes(namedtype.NamedType('a', univ.OctetString(encoding='utf-8')),
+                                                           namedtype.NamedType('b', univ.Integer())))
+    rec['a'] = b'\xff\xfe'
+    rec['b'] = big
+    values = [('huge INTEGER', univ.Integer(big)), ('huge negative INTEGER', univ.Integer(-big)),
+              ('huge ENUMERATED', univ.Enumerated(big)), ('OID with a huge arc', univ.ObjectIdentifier((1, 3, big))),
+              ('BIT STRING of 80000 bits', univ.BitString((1,) * 80000)),
+              ('OCTET STRING (utf-8) that is not utf-8', univ.OctetString(b'\xff\xfe', encoding='utf-8')),
+              ('record holding both', rec), ('SEQUENCE OF huge INTEGER', univ.SequenceOf(componentType=univ.Integer()).clone())]
+    values[-1][1].extend([big, 1])
+    quiet = lambda m: None  # noqa
+
+    def outcome(f):
+        try:
+            r = f()
+        except Exception as e:  # noqa
+            return ('raises', type(e).__name__)
+        return ('ok', r)
+    for name, v in values:
+        calls = [('ber.encode', lambda: bytes(codec.ENC['ber'].encode(v)).hex()),
+                 ('ber.encode indefinite', lambda: bytes(codec.ENC['ber'].encode(v, defMode=False)).hex()),
+                 ('der.encode', lambda: bytes(codec.ENC['der'].encode(v)).hex()),
+                 ('cer.encode', lambda: bytes(codec.ENC['cer'].encode(v)).hex()),
+                 ('native.encode', lambda: repr(type(nenc.encode(v))))]
+        try:
+            data = bytes(codec.ENC['der'].encode(v))
+            calls += [('der.decode with type', lambda: bytes(codec.ENC['der'].encode(codec.DEC['der'].decode(data, asn1Spec=v.clone())[0])).hex()),
+                      ('ber.decode without type', lambda: bytes(codec.ENC['der'].encode(codec.DEC['ber'].decode(data)[0])).hex()),
+                      ('cer.decode with type', lambda: len(codec.DEC['cer'].decode(bytes(codec.ENC['cer'].encode(v)), asn1Spec=v.clone())[1]))]
+        except Exception:  # noqa
+            pass
+        for cname, f in calls:
+            rep.evaluations += 1
+            rep.count('unprintable-with-logging')
+            outs = []
+            for logger in (None, debug.Debug('all', printer=quiet), None):
+                debug.setLogger(logger)
+                try:
+                    outs.append(outcome(f))
+                finally:
+                    debug.setLogger(None)
+            if not (outs[0] == outs[1] == outs[2]):
+                rep.fail('logging-changes-outcome', '%s of %s: %s with logging off, %s with logging on, %s off again' % (
+                    cname, name, str(outs[0])[:80], str(outs[1])[:80], str(outs[2])[:80]),
+                    {'kind': 'logging-unprintable', 'value': name, 'call': cname})
 
 
 def replay(path):
